@@ -202,3 +202,11 @@ fn canary_distance_nonzero() {
     let (_, b) = any_key();
     assert!(!a.distance(&b).0.is_zero());
 }
+
+/// Used by C37: equality of two KeyBytes that are known to differ at most in their
+/// last byte (the C37 harness builds all keys as 31 zero bytes + one symbolic
+/// byte).  Exact for such keys; replaces the 32-byte memcmp, which CBMC cannot
+/// afford at symbolic Vec offsets.
+pub(crate) fn eq_last_byte(a: &KeyBytes, b: &KeyBytes) -> bool {
+    a.0[31] == b.0[31]
+}
